@@ -36,7 +36,7 @@ joined by `>`; a name not written in lower case is suffixed `(uppercase)`); `<ct
        host-wrapper-chain-differs | host-wrapper-differs:token-… | host-combination-warning-missing[…]
        host-combination-warning-spurious | token-dropped/added/changed<ctx> (inside a converted rule)
   C18  import-url-dropped | import-layer-keyword-as-media | import-rewrite-differs |
-       import-comment-format | import-path-not-recoverable | import-path-not-encoded |
+       import-comment-format | import-comment-unterminated | import-path-not-recoverable | import-path-not-encoded |
        import-position-warning-missing | import-flagged-though-legal-position (only if STRICT_IMPORT_POSITION)
        token-dropped/added/changed<ctx> with `-of-import`
   C19  map-json-roundtrip | map-not-monotonic | map-dst-col-not-token-start | map-missing-entry |
@@ -1082,7 +1082,7 @@ class Analysis:
                 self.add("C09", "non-class-ident-prefixed" + self.ident_where(e),
                          "identifier %r is not a class selector but got the class prefix" % e.val, e, o)
         elif k == "comment" and e.role == "import-comment":
-            self.check_import_comment(e, o)
+            self.check_import_comment(e, o, which)
         elif k in NUMERIC:
             self.check_number(e, o)
         if k in BLOCKS:
@@ -1180,7 +1180,7 @@ class Analysis:
     def report_mismatch(self, e, o, which):
         cx = e.ctx
         if e.role == "import-comment" and o.kind == "comment":
-            self.check_import_comment(e, o)
+            self.check_import_comment(e, o, which)
             return
         if e.kind in NUMERIC and o.kind in NUMERIC:
             self.add("C10", "number-kind-or-unit-changed", "numeric token changed kind or unit", e, o)
@@ -1286,9 +1286,15 @@ class Analysis:
             pass
 
     # -- @import comment (C18) -----------------------------------------------------------------------
-    def check_import_comment(self, e, o):
+    def check_import_comment(self, e, o, which="normal"):
         sign, path = e.val
         txt = o.val
+        out = self.res.get(which)
+        if out is not None:
+            tx = Text(out)
+            raw = out[tx.index(*o.pos):]
+            if not raw.startswith("/*" + txt + "*/"):
+                self.add("C18", "import-comment-unterminated", "the placeholder comment is not closed by `*/`", e, o)
         if not txt.startswith(sign + " "):
             self.add("C18", "import-comment-format", "placeholder comment is not `<sign> <encoded path>`: %r" % txt, e, o)
             return
